@@ -113,6 +113,10 @@ const FAULTS: &[(&str, &str)] = &[
 
 const READ_FAULTS: &[(&str, &str)] = &[("read-unbalanced", "(list 1 (+ 2 3)"), ("read-illegal-token", "(list 1 #< 2)"), ("read-stray-paren", ")")];
 
+/// A failure below frames of procedures that belong to the failing form itself (a let body, a lambda literal): their
+/// descriptions in the trace must be those of a fresh VM even when the collector runs while the failure is handled.
+const ANON: &str = "(let ((p 5) (q 6)) (+ 1 ((lambda (z) (+ 2 (pf 2))) p)))";
+
 const PF: &str = "(define (pf n) (if (= n 0) (car '()) (+ 1 (pf (- n 1)))))";
 
 fn items(c: &Cell) -> Option<Vec<Cell>> {
@@ -321,6 +325,7 @@ fn build_session(case: &Case, serial: u64) -> (Vec<String>, usize, usize) {
         texts.push(format!("{:#}", f));
     }
     texts.push("(pf 3)".into());
+    texts.push(ANON.into());
     // directly after a run-time failure: a form that fails to compile and a text that cannot be read have no
     // stack trace of their own (and must not show the previous one); then the same run-time failure again
     texts.push("(if)".into());
@@ -362,6 +367,8 @@ fn run_case(st: &mut St, acc: &mut Acc, case: &Case) {
     acc.evals += 1;
     if st.pair.is_none() || st.used >= 64 {
         let mut im = Impl::new();
+        // the main VM receives every form as text (Vm::eval_text, the REPL's route); the twin below is driven in slices
+        im.text_route = true;
         let mut m = new_model(&im);
         // one program recurses 20 000 deep in its setup
         m.step_limit = 4_000_000;
@@ -408,7 +415,12 @@ fn run_case(st: &mut St, acc: &mut Acc, case: &Case) {
             // a form the model rejects while analysing it (before evaluating anything) fails at compile time
             let fails_to_compile = matches!(m.desugar(&form), Err(crate::refscheme::Stop::Fail(crate::refscheme::Fail::Syntax(_))));
             let mr = m.eval_form(&form);
+            // for the form with anonymous frames every poll of the collector collects (the failure path polls it)
+            if t == ANON {
+                marwood::vm::verif::set_eager_gc(true);
+            }
             let ir = im.eval(&form);
+            marwood::vm::verif::set_eager_gc(false);
             if fails_to_compile && matches!(ir, ImplOut::Error(_, _)) && im.vm.last_stacktrace().is_some() {
                 failure = Some(("stale-stack-trace".into(), json!({"form_index": i, "form": t, "note": "a form that fails to compile has no stack trace", "observed_trace": format!("{:?}", im.vm.last_stacktrace())})));
                 break;
@@ -442,6 +454,14 @@ fn run_case(st: &mut St, acc: &mut Acc, case: &Case) {
                         if matches!(irs, ImplOut::Panic(_)) { "panic".into() } else { "sliced-session-differs".into() },
                         json!({"form_index": i, "form": t, "uninterrupted": ir.show(), "sliced_budget_7": irs.show(), "trace_uninterrupted": ta, "trace_sliced": tb}),
                     ));
+                    break;
+                }
+            }
+            if t == ANON {
+                let tr = format!("{:?}", im.vm.last_stacktrace());
+                let want = baseline_trace_for(ANON);
+                if tr != want {
+                    failure = Some(("stack-trace-differs".into(), json!({"form_index": i, "form": t, "expected_trace": want, "observed_trace": tr})));
                     break;
                 }
             }
@@ -625,7 +645,7 @@ pub fn run(ctx: &Ctx) -> i32 {
         distinct_failures(&mut acc, kind, k_small, k_large);
     }
     rep.rule = format!(
-        "{} effectful session programs (global counters, a vector mutated in steps, closure state, map / for-each callbacks, non-tail recursion to depth 1 / 5 / 50, a stored continuation re-entered, a continuation captured 70 frames deep and re-entered after the failure, definition and set! initialisers, eval, apply with a variadic callee, operator position, nested begin / let family) with {} expression positions in total; at every position every fault kind ({:?}) replaces the subexpression, and every program form is also replaced by each read-time fault ({:?}); each faulted form is evaluated once and twice in a row. The session continues with probes of every global, a fixed failing call (pf 3), the probes again and a succeeding form. Oracles: every form's value or failure equals the reference machine's (which aborts to top level keeping the completed effects; compile-time faults must run nothing); last_stacktrace() of (pf 3) equals the fresh-VM trace; sp after the session is the fresh-VM value; and for the deepest position of every form, sp, stack capacity and live heap after {} consecutive failures equal those after {}; the same after as many failing forms that are all different programs (an unbound variable of its own each, at top level and inside a procedure; a syntax error and a user error mentioning a symbol of its own), where the number of global names is compared too. Non-trivial = a session in which the injected fault was actually reached.",
+        "{} effectful session programs (global counters, a vector mutated in steps, closure state, map / for-each callbacks, non-tail recursion to depth 1 / 5 / 50, a stored continuation re-entered, a continuation captured 70 frames deep and re-entered after the failure, definition and set! initialisers, eval, apply with a variadic callee, operator position, nested begin / let family) with {} expression positions in total; at every position every fault kind ({:?}) replaces the subexpression, and every program form is also replaced by each read-time fault ({:?}); each faulted form is evaluated once and twice in a row. Every form reaches the main VM as text through Vm::eval_text. The session continues with probes of every global, a fixed failing call (pf 3), the probes again and a succeeding form. Oracles: every form's value or failure equals the reference machine's (which aborts to top level keeping the completed effects; compile-time faults must run nothing); last_stacktrace() of (pf 3) equals the fresh-VM trace, and so does that of a failure below a let body and a lambda literal of the failing form itself, evaluated with every collector poll collecting; sp after the session is the fresh-VM value; and for the deepest position of every form, sp, stack capacity and live heap after {} consecutive failures equal those after {}; the same after as many failing forms that are all different programs (an unbound variable of its own each, at top level and inside a procedure; a syntax error and a user error mentioning a symbol of its own), where the number of global names is compared too. Non-trivial = a session in which the injected fault was actually reached.",
         PROGRAMS.len(), n_positions, FAULTS.iter().map(|f| f.0).collect::<Vec<_>>(), READ_FAULTS.iter().map(|f| f.0).collect::<Vec<_>>(), k_large, k_small
     );
     rep.extra("fault_sessions", json!(n));
